@@ -55,13 +55,21 @@ func (h *liquidBlockHeaderSubscriber) Deregister(o TXObserver) {
 
 func (h *liquidBlockHeaderSubscriber) Update(ctx context.Context, blockHeight BlockHeight) error {
 	h.mu.Lock()
-	defer h.mu.Unlock()
-	for _, observer := range h.txObservers {
+	observers := make([]TXObserver, len(h.txObservers))
+	copy(observers, h.txObservers)
+	h.mu.Unlock()
+
+	// The callbacks re-enter the swap's state machine, whose actions register
+	// observers while holding the swap's lock. They must therefore never be
+	// called while the subscriber's lock is held.
+	for _, observer := range observers {
 		callbacked, err := observer.Callback(ctx, blockHeight)
 		if callbacked {
 			if err == nil || errors.Is(err, swap.ErrSwapDoesNotExist) {
 				// callbacked and no error, remove observer
+				h.mu.Lock()
 				h.Deregister(observer)
+				h.mu.Unlock()
 			}
 		}
 		if err != nil && !errors.Is(err, swap.ErrSwapDoesNotExist) {
